@@ -107,3 +107,54 @@ Section CrashBytes.
   (* recovery of a byte-level image *)
   Definition recover_image_bytes (ck : bool) (s : pstate) (b : bimage) : list batch := recover (abs_image ck s b).
 End CrashBytes.
+
+(* ---- the batch record's own encoding, as recoverJournal decodes it (leveldb/batch.go) ----
+   decodeBatchHeader: 8 bytes sequence number and 4 bytes record count, little endian ("too short" below 12
+   bytes); decodeBatch: per record a type byte (0 delete, 1 put; anything else "invalid type"), a uvarint key
+   length and the key, for a put a uvarint value length and the value ("invalid key/value length" when the
+   varint is malformed or the field overruns the data); decodeBatchToMem: "invalid records length" unless the
+   number of records equals the header's count.  The comparison with the running sequence number (seq <
+   expectSeq, "invalid sequence number") is replay_journal's in Store/Crash.v.  Every one of these errors is
+   an ErrCorrupted, which the tolerant replay logs and skips.  Lengths are N here (Go converts the uvarint
+   to int: a length of 2^63 or more is outside the model). *)
+From GL Require Import Base.Varint.
+
+Fixpoint batch_walk (fuel : nat) (data : bytes) (i : N) : option N :=
+  match data with
+  | [] => Some i
+  | kt :: d1 =>
+      match fuel with
+      | O => None
+      | S f =>
+          if 1 <? kt then None
+          else match uvarint d1 with
+               | UvOk x n =>
+                   if Varint.lenN d1 <? n + x then None
+                   else let d2 := Varint.dropN (n + x) d1 in
+                        if kt =? 1 then
+                          match uvarint d2 with
+                          | UvOk y n2 =>
+                              if Varint.lenN d2 <? n2 + y then None
+                              else batch_walk f (Varint.dropN (n2 + y) d2) (i + 1)
+                          | _ => None
+                          end
+                        else batch_walk f d2 (i + 1)
+               | _ => None
+               end
+      end
+  end.
+
+(* hl: batchHeaderLen (Gen/Consts.v: ldb_batchHeaderLen); the offsets 0 and 8 are literals in batch.go *)
+Definition dec_batch_go (hl : N) (r : bytes) : option batch :=
+  if Varint.lenN r <? hl then None
+  else
+    let seq := le_decode (Varint.takeN 8 r) in
+    let n := le_decode (Varint.takeN 4 (Varint.dropN 8 r)) in
+    match batch_walk (length r) (Varint.dropN hl r) 0 with
+    | Some c => if c =? n then Some {| b_seq := seq; b_n := n |} else None
+    | None => None
+    end.
+
+(* an encoder with that decoder, used for non-vacuity only: header, then b_n deletions of the empty key *)
+Definition enc_batch_dels (b : batch) : bytes :=
+  le_encode 8 (b_seq b) ++ le_encode 4 (b_n b) ++ N.iter (b_n b) (fun l => 0 :: 0 :: l) [].
